@@ -153,6 +153,9 @@ func (ex *Exec) toData(st State, v Val, t types.Type) Term {
 			return Atom(ps.Alt, ps)
 		}
 		ex.vc.assumeNote("pointer stored as data is modelled as an immutable box of the pointee's value at that moment (pointee not mutated afterwards, identity never compared)")
+		if v.NilIf.Sort != nil {
+			return Ite(v.NilIf, Atom(ps.Alt, ps), MkData(ps, ex.loadLV(st, v.P)))
+		}
 		return MkData(ps, ex.loadLV(st, v.P))
 	}
 	if v.Fn != nil || v.Builtin != "" {
@@ -171,6 +174,9 @@ func (f *Frame) derefPtr(ns *nodeState, v Val, elem types.Type, what string, pos
 			c := ex.newCell("nilderef", ex.vc.SortOf(elem), elem)
 			ns.st[c] = ex.vc.Declare("nilderef", c.Sort)
 			return &LV{Cell: c}
+		}
+		if v.NilIf.Sort != nil {
+			ex.obl(&Obligation{Name: f.safetyName("nilderef"), Kind: "safety", Hyp: ns.reach, Goal: Not(v.NilIf), Note: "nil pointer dereference: " + what, Pos: f.pos(pos)})
 		}
 		return v.P
 	}
@@ -281,7 +287,7 @@ func (f *Frame) execInstr(ns *nodeState, ins ssa.Instruction) {
 		v := f.operand(ns.env, x.X)
 		if !v.IsPtr && v.T.Sort != nil {
 			want := vc.SortOf(x.Type())
-			if want != v.T.Sort {
+			if !sameSort(want, v.T.Sort) {
 				ex.fail("ChangeType between different sorts %s -> %s", v.T.Sort, want)
 			}
 		}
@@ -682,7 +688,7 @@ func (f *Frame) convert(ns *nodeState, x *ssa.Convert) Val {
 		}
 		// mathematical integers: the value must fit (Go would wrap; a wrap is reported)
 		r := t
-		if t.Sort != ts {
+		if !sameSort(t.Sort, ts) {
 			if ts.Kind == KReal {
 				r = toReal(t)
 			} else {
@@ -708,11 +714,18 @@ func (f *Frame) convert(ns *nodeState, x *ssa.Convert) Val {
 		if t.K != nil {
 			tr = IntLit(t.K, SInt)
 		}
+		lo, hi := intRange(tb)
+		inRange := And(leT(IntLit(lo, SInt), tr), leT(tr, IntLit(hi, SInt)))
+		if inRange.B == nil || !*inRange.B {
+			// Go: "if the value cannot be represented by the type the result is implementation-dependent" (no panic)
+			arb := vc.Declare(f.prefix+x.Name()+"_f2i", SInt)
+			vc.Assume(And(leT(IntLit(lo, SInt), arb), leT(arb, IntLit(hi, SInt))), "float->int conversion out of range: arbitrary value of the type")
+			tr = Ite(inRange, tr, arb)
+		}
 		r := tr
 		if ts.Kind == KReal {
 			r = toReal(tr)
 		}
-		f.overflowCheck(ns, r, x.Type(), "float->int conversion", x.Pos())
 		return Val{T: r}
 	case ff && tf:
 		return v
@@ -764,7 +777,7 @@ func signedVal(k *big.Int, w int) *big.Int {
 
 func (f *Frame) binop(ns *nodeState, x *ssa.BinOp, av, bv Val) Val {
 	ex := f.ex
-	vc := ex.vc
+	_ = ex.vc
 	xt := x.X.Type()
 	// pointer / nil comparisons
 	if av.IsPtr || bv.IsPtr {
@@ -822,8 +835,7 @@ func (f *Frame) binop(ns *nodeState, x *ssa.BinOp, av, bv Val) Val {
 		return Val{T: leT(b, a)}
 	case token.ADD:
 		if a.Sort.Kind == KString {
-			vc.DeclareFun("str_concat", []*Sort{SStr, SStr}, SStr)
-			return Val{T: App(SStr, "str_concat", a, b)}
+			return Val{T: App(SStr, "str.++", a, b)}
 		}
 		r := addT(a, b)
 		f.overflowCheck(ns, r, x.Type(), "addition", x.Pos())
@@ -926,6 +938,9 @@ func (f *Frame) ptrEq(ns *nodeState, a, b Val, t types.Type) Term {
 	ex := f.ex
 	isNil := func(v Val) (Term, bool) {
 		if v.IsPtr {
+			if v.P != nil && v.NilIf.Sort != nil {
+				return v.NilIf, true
+			}
 			return BoolT(v.P == nil), true
 		}
 		if v.T.Sort != nil && (v.T.Sort.Role == "ptr" || v.T.Sort.Role == "iface") {
